@@ -19,4 +19,17 @@ QTargets(D) ==
     ELSE {GG(<<3, 2, 2>>, <<One, One, R(3,2)>>, <<One, R(1,2), RI(-1)>>, QuatMat(<<1,1,1,1>>), FALSE),
           GG(<<2, 3, 2>>, <<R(1,2), R(3,2), Two>>, <<One, Zero, RI(-1)>>, QuatMat(<<2,1,0,0>>), TRUE)}
 AllPads == {<<"zeros", 0>>, <<"border", 0>>, <<"constant", 7>>}
+\* ---------------------------------------------------------------- thorough lattice
+V53 == <<8, 21, 4, 17, 29, 12, 1, 26, 9, 15, 23, 6, 19, 2, 31>>  \* 5 x 3
+V333 == <<7, 19, 2, 25, 11, 30, 4, 16, 22, 9, 28, 1, 13, 20, 5, 27, 10, 18, 3, 24, 14, 31, 6, 21, 8, 17, 12>>
+S4(ac) == Img(GG(<<5, 3>>, <<R(3,4), R(5,4)>>, <<R(3,2), RI(-1)>>, FlipX(Rot2Of(CS_3_5)), ac), V53)
+S5(ac) == Img(GG(<<3, 3, 3>>, <<R(3,2), One, R(1,2)>>, <<One, R(1,2), RI(-1)>>, QuatMat(<<1,1,1,1>>), ac), V333)
+TSources2 == TSources \cup {S4(TRUE), S4(FALSE), S5(TRUE), S5(FALSE)}
+TTargets(D) == QTargets(D) \cup
+    (IF D = 2 THEN {GG(<<6, 2>>, <<R(1,2), R(3,2)>>, <<RI(2), R(-3,4)>>, Rot2Of(CS_4_5n), TRUE),
+                    GG(<<3, 3>>, <<One, One>>, <<R(7,4), RI(-1)>>, FlipX(Rot2Of(CS_90)), FALSE),
+                    GG(<<4, 5>>, <<R(1,4), R(1,2)>>, <<RI(2), RI(-1)>>, Rot2Of(CS_Id), FALSE),
+                    GG(<<1, 4>>, <<One, R(3,4)>>, <<RI(2), RI(-1)>>, Rot2Of(CS_3_5), TRUE)}
+     ELSE {GG(<<2, 2, 3>>, <<R(3,4), One, R(1,2)>>, <<One, R(1,4), RI(-1)>>, FlipX(QuatMat(<<2,1,0,0>>)), TRUE),
+           GG(<<4, 2, 2>>, <<R(1,2), R(1,2), One>>, <<R(3,4), Zero, R(-3,4)>>, QuatMat(<<1,0,0,0>>), FALSE)})
 =============================================================================
